@@ -74,6 +74,19 @@ def run_case(prog, init, pattern, acc, con, lib, fuel=4000, limit=60000, respell
         small = exec_prog.shrink(prog, still)
         if len(pp(small)) < len(pp(prog)):
             exec_prog.compare_case(small, init, pattern, acc, 'C01', lib, case={'prog': small, 'init': refval.enc(init), 'pattern': pattern, 'shrunk': True, 'debug': debug}, fuel=fuel, limit=limit, debug=debug)
+    if verdict == 'ok' and respell is None and len(text) % 9 == 0:
+        # option shapes a host may use: debug mode WITHOUT a log function, and no debug key at all - the run (result, globals,
+        # status) is the same; only the log, which nobody receives, is not compared
+        for extra in ({'logFn': exec_prog.DROP, 'debug': True}, {'logFn': exec_prog.DROP, 'debug': exec_prog.DROP}, {'debug': exec_prog.DROP}):
+            alt = exec_prog.run_real(text, init, pattern if pattern is None else list(pattern), limit=limit, options_extra=extra)
+            acc.count('option_shape_runs')
+            if alt['status'] == 'timeout':
+                continue
+            bad = [k for k in ('status', 'result', 'globals') if alt[k] != real[k]] if not alt['status'].startswith('host-exception') else ['status']
+            if bad:
+                acc.violation('run-depends-on-option-shape:' + ','.join(bad), f'options {sorted(k for k in extra)} dropped/changed: {alt["status"]!r} {alt.get("result")!r:.200} vs {real["status"]!r} {real.get("result")!r:.200}\n{text}',
+                              dict(case, option_shape=sorted(extra)))
+                break
     _drain(con, acc, 'C01', case)
     nontrivial = bool(real and real.get('logs')) and any(k in text for k in ('while ', 'for ', 'if '))
     acc.case((text, repr(sorted(case['init'].items(), key=str)) if isinstance(case['init'], dict) else '', pattern), nontrivial)
